@@ -50,6 +50,11 @@ deriving Repr, Inhabited
 
 inductive TEv
   | enter (c : Nat) | exit (c : Nat) | cancelled (c : Nat) | closed (c : Nat) | failed (c : Nat)
+  /-- bookkeeping for the conservation theorem: `create_task(coro)` of the manager was called with coroutine `c` -/
+  | submitted (c : Nat)
+  /-- a task that was cancelled before its first step: the coroutine is closed without having run (observably the
+  same as `closed`, but the coroutine did get a task) -/
+  | closedTask (c : Nat)
 deriving Repr, DecidableEq, Inhabited
 
 structure TSt where
@@ -63,6 +68,10 @@ structure TSt where
   tracked : List Nat := []
   log : List TEv := []                   -- newest first
 deriving Repr, Inhabited
+
+/-- the observable events of a log (the bookkeeping entries `submitted` left out), oldest first -/
+def observable (log : List TEv) : List TEv :=
+  log.reverse.filter fun e => match e with | .submitted _ => false | _ => true
 
 def TSt.emit (s : TSt) (e : TEv) : TSt := { s with log := e :: s.log }
 /-- task `t`; an id that was never handed out reads as a finished, delivered task (no operation acts on it) -/
@@ -104,8 +113,8 @@ def seqTaskStart (s : TSt) : TSt :=
   | some _ => s
   | none => seqTaskDone s none
 
-/-- `manager.create_task(coro[, key])` -/
-def submit (s : TSt) (c key : Nat) : TSt :=
+/-- `manager.create_task(coro[, key])`, the body -/
+def submitCore (s : TSt) (c key : Nat) : TSt :=
   match s.kind with
   | .sequential => seqTaskStart { s with queue := s.queue ++ [(c, key)] }
   | .limitingSeq maxQ pol =>
@@ -151,6 +160,9 @@ def submit (s : TSt) (c key : Nat) : TSt :=
       let (s', t) := s.createTask c
       { s' with tracked := s'.tracked ++ [t] }
 
+/-- `manager.create_task(coro[, key])` -/
+def submit (s : TSt) (c key : Nat) : TSt := submitCore (s.emit (.submitted c)) c key
+
 def submitAll (s : TSt) : List (Nat × Nat) → TSt
   | [] => s
   | (c, k) :: rest => submitAll (submit s c k) rest
@@ -171,7 +183,7 @@ def runReady (s : TSt) : Ready → TSt
   | .step t =>
     let x := s.task t
     if x.status ≠ .pendingStart then s else
-    if x.cancelReq then finishTask (s.emit (.closed x.coro)) t      -- CancelledError thrown into the unstarted coroutine
+    if x.cancelReq then finishTask (s.emit (.closedTask x.coro)) t      -- CancelledError thrown into the unstarted coroutine
     else (s.setTask t { x with status := .suspended }).emit (.enter x.coro)
   | .resume t fail last =>
     let x := s.task t
